@@ -4,6 +4,7 @@ Extracts (template matching on the AST, never guessing):
 
   * the order of the statements of the `finally` block of `Simulation.__init__`           -> simCfg.order
   * whether `self.agents` is assigned before the `try` of `Simulation.__init__`           -> simCfg.agentsEarly
+  * whether the statements after `self.destroy()` are protected by a nested try/finally  -> simCfg.destroyGuarded
   * how `DynamicScenario._override` merges the old values of an object overridden twice  -> simCfg.merge
   * whether `DynamicScenario._stop` forgets the overrides it has reverted                -> simCfg.stopClears
   * `DynamicScenario._stop` stops sub-scenarios before reverting its own overrides       -> subsStoppedBeforeRevert
@@ -80,7 +81,16 @@ def _extract_init(tree):
     ti = tries[0]
     tr = body[ti]
     expect(tr.finalbody and ti == len(body) - 1, "the try/finally is not the last statement of Simulation.__init__")
-    order = [_classify_finally_stmt(st) for st in tr.finalbody]
+    fin = tr.finalbody
+    guarded = False
+    if len(fin) == 1 and isinstance(fin[0], ast.Try):
+        # try: self.destroy()  finally: <the other clean-up statements>   (they run even if destroy() raises)
+        inner = fin[0]
+        expect(not inner.handlers and not inner.orelse and len(inner.body) == 1 and _call_name(inner.body[0]) == "self.destroy"
+               and inner.finalbody, "nested try in the finally block of Simulation.__init__ is not `try: self.destroy() finally: …`")
+        fin = inner.body + inner.finalbody
+        guarded = True
+    order = [_classify_finally_stmt(st) for st in fin]
     expect(len(set(order)) == len(order), "a clean-up step occurs twice in the finally block")
     # beginSimulation is the first call inside the try (after the import)
     first_calls = [_call_name(st) for st in tr.body if _call_name(st)]
@@ -94,7 +104,7 @@ def _extract_init(tree):
     # rejections are re-raised (not swallowed) by the except clause
     for h in tr.handlers:
         expect(isinstance(h.body[-1], ast.Raise) and h.body[-1].exc is None, "an except clause of Simulation.__init__ does not re-raise")
-    return order, agents_early
+    return order, agents_early, guarded
 
 
 def _extract_create(tree):
@@ -238,12 +248,12 @@ def extract():
     _, sim = load(SIM)
     _, dyn = load(DYN)
     _, obj = load(OBJ)
-    order, agents_early = _extract_init(sim)
+    order, agents_early, guarded = _extract_init(sim)
     proxy_first = _extract_create(sim)
     merge = _extract_override(dyn)
     clears, subs_first = _extract_stop(dyn)
     _check_object_proxy(obj)
-    return {"order": order, "agentsEarly": agents_early, "merge": merge, "stopClears": clears,
+    return {"order": order, "agentsEarly": agents_early, "destroyGuarded": guarded, "merge": merge, "stopClears": clears,
             "subsFirst": subs_first, "proxyBeforeCreate": proxy_first}
 
 
@@ -259,7 +269,8 @@ def simCfg : Cfg :=
   {{ order := [{order}],
     merge := .{d['merge']},
     stopClears := {b(d['stopClears'])},
-    agentsEarly := {b(d['agentsEarly'])} }}
+    agentsEarly := {b(d['agentsEarly'])},
+    destroyGuarded := {b(d['destroyGuarded'])} }}
 /-- `DynamicScenario._stop` stops its sub-scenarios before it reverts its own overrides -/
 def subsStoppedBeforeRevert : Bool := {b(d['subsFirst'])}
 /-- `Simulation._createObject` registers the object and enables its proxy before calling the simulator -/
